@@ -157,6 +157,7 @@ impl Prop for C01 {
             let ops = OpSet::builtin();
             let name = format!("sweep{}", stage);
             for i in a..b {
+            out.idx = Some(i);
                 let s = sw[stage].get(i);
                 check_string(&s, &name, out);
                 if let Ok(t) = lex(&s, &ops) {
@@ -175,6 +176,7 @@ impl Prop for C01 {
         // ladder: one case per process
         let cases = ladder_cases(tier);
         for i in a..b {
+            out.idx = Some(i);
             let (shape, n) = cases[i as usize];
             let input = ladder_input(shape, n as usize);
             let shape_s = shape.to_string();
